@@ -269,7 +269,12 @@ func (e *Env) ValidNewView(nv *interfaces.NewViewMessage, h primitives.BlockHeig
 // satisfies, signed by pairwise distinct members of the committee with valid signatures and weight >= Q (strict) or > F (soft),
 // whose random-seed signature verifies against the seed derived from the previous proof.
 func (e *Env) ValidBlockProof(proofBytes []byte, block interfaces.Block, com []interfaces.CommitteeMember, prevProofBytes []byte, soft bool,
-	commitmentOK func(block interfaces.Block, hash primitives.BlockHash) bool) Verdict {
+	commitmentOK func(block interfaces.Block, hash primitives.BlockHash) bool) (vd Verdict) {
+	defer func() {
+		if r := recover(); r != nil { // the shared byte-level readers panic on malformed bytes: unreadable means invalid
+			vd = no("malformed")
+		}
+	}()
 	if block == nil {
 		return no("nil-block")
 	}
